@@ -15,8 +15,8 @@ import os
 
 LEVEL = "model_checking"
 
-QUICK = ["Rearrange_quick1.cfg", "Rearrange_quick2.cfg", "Rearrange_quick3.cfg"]
-THOROUGH = ["Rearrange_quick2.cfg", "Rearrange_thorough3.cfg", "Rearrange_thorough4.cfg", "Rearrange_thorough6.cfg"]
+QUICK = ["Rearrange_quick1.cfg", "Rearrange_quick2.cfg", "Rearrange_quick3.cfg", "Rearrange_quick4.cfg"]
+THOROUGH = ["Rearrange_quick2.cfg", "Rearrange_quick4.cfg", "Rearrange_thorough3.cfg", "Rearrange_thorough4.cfg", "Rearrange_thorough6.cfg"]
 
 
 def run(ctx):
